@@ -196,6 +196,22 @@ def validate(wd, raw_files, tag="nodetrace", timeout=1800):
         while start > 0 and lines[start]["ev"] != "reset":
             start -= 1
         diffs.append({"line": ln, "event": name, "what": fields, "instance": lines[start], "context": lines[max(start, ln - 12):ln]})
+    # across instances: NetCore orders the instances of one node ID by their start epochs and by nothing else, so an
+    # instance created later (in this process: a larger event index of its creation event) must have the larger epoch
+    born = {}
+    for e in raw:
+        if e.get("ev") == "node_new" and "@" in str(e.get("n", "")):
+            born.setdefault(e["n"], e.get("i", 0))
+    by_id = {}
+    for label, i in born.items():
+        nid, ep = label.rsplit("@", 1)
+        by_id.setdefault(nid, []).append((i, int(ep), label))
+    for nid, lst in by_id.items():
+        lst.sort()
+        for (i1, e1, l1), (i2, e2, l2) in zip(lst, lst[1:]):
+            if e2 < e1:
+                diffs.append({"line": 0, "event": "node_new", "what": ["later_instance_has_smaller_start_epoch"],
+                              "instance": {"ev": "reset", "self": nid}, "context": [{"ev": "node_new", "earlier": l1, "later": l2}]})
     return {"lines": len(lines), "diffs": diffs, "classes": classes, "tlc": r,
             "instances": sum(1 for x in lines if x["ev"] == "reset")}
 
